@@ -35,6 +35,7 @@ rw("b", "bool", True); rw("c", "bool", False)
 rw("s", "QString", True); rw("t", "QString", False)
 rw("e", "VObj::Mode", True)
 rw("e2", "VObj::Mode2", False)
+rw("sc", "VObj::Scoped", False)                 # a property of a scoped enum type
 rw("f", "VObj::Flags", False)
 rw("p", "VObj*", True); rw("q", "VObj*", False)
 rw("sl", "QStringList", False)
@@ -77,7 +78,11 @@ vobj = {"className": "VObj", "qualifiedClassName": "VObj", "object": True, "enum
 def sub(name, base):
     return {"className": name, "qualifiedClassName": name, "object": True,
             "superClasses": [{"access": "public", "name": base}]}
-classes = [vobj, sub("VSub", "VObj"), sub("QLabel1", "QLabel"), sub("Widget1", "QWidget"),
+vsub = sub("VSub", "VObj")
+# a derived class with its own properties: the NOTIFY signal of `w` is declared in the base class (legal in Qt)
+vsub["properties"] = [prop("w", "int", notify="iChanged"), prop("x", "int", notify="xChanged"), prop("y", "int")]
+vsub["signals"] = [meth("xChanged", ("int",))]
+classes = [vobj, vsub, sub("QLabel1", "QLabel"), sub("Widget1", "QWidget"),
            sub("QWidget1", "QWidget"), sub("KLineEdit", "QLineEdit"),
            # classes that merely derive from the ones qmluic treats specially (C11: element kind by derivation)
            sub("VMenu", "QMenu"), sub("VAction", "QAction"), sub("VTabs", "QTabWidget"), sub("VBox", "QVBoxLayout")]
